@@ -292,15 +292,15 @@ def replay(d):
 
     def on_alarm(signum, frame):
         raise TimeoutError("step did not end")
-    signal.signal(signal.SIGALRM, on_alarm)
-    signal.alarm(3)
+    signal.signal(signal.SIGVTALRM, on_alarm)       # CPU time: machine load must not turn a slow step into a hang
+    signal.setitimer(signal.ITIMER_VIRTUAL, 3)
     try:
         return replay_inner(d)
     except TimeoutError:
-        return {"reproduced": True, "detail": "the step does not end within 3 s: graph n=%d edges=%s guards=%s requests=%s" % (
+        return {"reproduced": True, "detail": "the step does not end within 3 s of CPU time: graph n=%d edges=%s guards=%s requests=%s" % (
             d["n"], d["edges"], d.get("guards"), d.get("requests"))}
     finally:
-        signal.alarm(0)
+        signal.setitimer(signal.ITIMER_VIRTUAL, 0)
 
 
 def replay_inner(d):
